@@ -138,6 +138,7 @@ export function checkParser({ rep, stats, parser, parserName, spec, refProg, vx,
   };
   const results = {};
   for (const [opts, oname] of OPTIONS) {
+    if (vx.cyclic && oname.includes("sorted")) continue; // cyclic values: default and strict only (no-throw is the question)
     stats.evaluations++;
     const input = build(vx);
     const before = canon(input);
